@@ -1,8 +1,62 @@
-"""C13 — integer slack conversions (DESIGN §5 C13)."""
-from .common import *
+"""C13 — integer slack conversions (DESIGN §5 C13).
 
+Written against the normal form (VIEW = 'norm'): `find(|c| ..)`, `try_for_each(|id| ..)`, extracted
+helpers all look like the explicit loop they stand for.  "X missing => error" clauses are path
+conditions ("assume the lookup yields None: no Ok-exit is reachable"), decided with the variant-tracking
+reachability of C11 (reach_v), so `?`, `let .. else`, `match`, `ensure!` and a `?` on the result of an
+inlined helper / rewritten `try_for_each` are all the same thing.
+"""
+from .common import *
+# helpers shared by the two modules of this owner (candidates for templates.py / common.py, see C13-NOTES.txt)
+from .C11 import reach_v, must_pass_v, Guard2, bool_guards, enum_tests, single_def, const_operand, plain_source, FLIP
+
+VIEW = 'norm'
 INST = 'v1::Instance'; DV = 'v1::DecisionVariable'; CON = 'v1::Constraint'
 ALLOWED_KINDS = {'Binary', 'Integer'}
+
+
+def none_is_error(body, start_bb, local, variant='Option::None'):
+    """path clause: when `local` holds `variant` at `start_bb`, no Ok-exit is reachable and an Err-exit is"""
+    r = reach_v(body, [start_bb], {local: variant})
+    return not (r & body.strict_ok_exits()) and bool(r & body.err_exits())
+
+
+class SideGuard:
+    """switch of a bool with the side on which the clause's condition holds as `true_bb`"""
+    def __init__(self, body, sb, neg):
+        self.switch_bb = sb
+        self.true_bb, self.false_bb = T.switch_sides(body, sb, neg)
+
+
+def lookup_loops(ctx, body):
+    """LOOKUP idioms for `the constraint with id == constraint_id` (normal form):
+       self.constraints.iter[_mut]().find(|c| c.id == constraint_id)          loop + `item.id == arg` test, hit => Some(item)
+       .position(|c| c.id == constraint_id) / for c in &mut self.constraints { if c.id == constraint_id {..} }
+    Returns [(loop, bb of the id test, hit target, miss target)]."""
+    out = []
+    for lo in T.for_loops(body):
+        nextc, header, some_bb, none_bb, blocks = lo
+        if not ctx.S.slice_operand(body, nextc.args[0]).has_field(INST, 'constraints'): continue
+        tests = []
+        for bi, st in body.stmts():
+            rv = st['rv']
+            if bi in blocks and rv['k'] == 'bin' and rv['op'] in ('Eq', 'Ne') and not st['dst']['p']:
+                ss = [ctx.S.slice_operand(body, o) for o in rv['ops']]
+                for i in (0, 1):
+                    if ss[i].has_field(CON, 'id') and nextc in ss[i].call_objs and 2 in ss[1 - i].params and nextc not in ss[1 - i].call_objs:
+                        tests.append((bi, st['dst']['l'], rv['op'] == 'Eq'))
+        for c in body.calls:
+            if c.bb in blocks and c.item in ('eq', 'ne') and 'PartialEq' in (c.trait or '') and len(c.args) == 2 and not c.dst['p']:
+                ss = [ctx.S.slice_operand(body, o) for o in c.args]
+                for i in (0, 1):
+                    if ss[i].has_field(CON, 'id') and nextc in ss[i].call_objs and 2 in ss[1 - i].params and nextc not in ss[1 - i].call_objs:
+                        tests.append((c.bb, c.dst['l'], c.item == 'eq'))
+        for bi, l, eq in tests:
+            for sb, neg in T.bool_flow(body, l):
+                t, f = T.switch_sides(body, sb, neg)
+                hit, miss = (t, f) if eq else (f, t)
+                if hit is not None and miss is not None: out.append((lo, bi, hit, miss))
+    return out
 
 
 def slack_rules(ctx, name, convert):
@@ -10,70 +64,105 @@ def slack_rules(ctx, name, convert):
     body = ctx.method(R + '/anchor', INST, name)
     if body is None: return {}
     feats = {}
-    pushes = [c for c in body.calls if c.item == 'push' and re.search(r'Vec::<v1::DecisionVariable>::push', c.name)]
+    # NEW-VARIABLE idioms: decision_variables.push(dv) | .insert(i, dv) | .extend([dv]) (normal form: push)
+    pushes = [c for c in body.calls if c.item in ('push', 'insert') and re.search(r'Vec::<v1::DecisionVariable>::(push|insert)', c.name)
+              and ctx.S.slice_operand(body, c.args[0]).has_field(INST, 'decision_variables')]
     ctx.check(len(pushes) == 1, R + '/vars/one-push', 'T-CARRY', body.name, 'expected one decision_variables.push, found %d' % len(pushes), body.site())
     if len(pushes) != 1: return feats
     push = pushes[0]
 
     def before_push(bb): return body.dominates(bb, push.bb)
-    # ---- g1: constraint lookup
-    finds = [c for c in body.calls if c.item in ('find', 'position') and 'Iterator' in (c.trait or '') and ctx.S.slice_operand(body, c.args[0]).has_field(INST, 'constraints')]
-    ctx.check(len(finds) == 1, R + '/guards/lookup/one', 'T-ERRFLOW', body.name, 'expected one constraint lookup, found %d' % len(finds), body.site())
-    for c in finds:
-        cl = ctx.S.slice_operand(body, c.args[1])
-        ctx.check(cl.has_field(CON, 'id') and 2 in cl.params, R + '/guards/lookup/by-id', 'T-CARRY', body.name, 'lookup does not compare the constraint id with the argument', body.site(c.bb))
-        errflow_calls(ctx, R + '/guards/lookup/none-is-error', body, [c], 'constraint lookup')
-        ctx.check(before_push(c.bb), R + '/guards/lookup/dominates', 'T-GUARD', body.name, 'lookup does not dominate the mutation', body.site(c.bb))
+    oks = body.strict_ok_exits()
+    # ---- g1: constraint lookup by id; not found => error
+    lk = lookup_loops(ctx, body)
+    calls_lk = [c for c in body.calls if c.item in ('find', 'position') and 'Iterator' in (c.trait or '') and ctx.S.slice_operand(body, c.args[0]).has_field(INST, 'constraints')]   # not desugared (fn item as predicate)
+    ctx.check(bool(lk) or any(ctx.S.slice_operand(body, c.args[1]).has_field(CON, 'id') and 2 in ctx.S.slice_operand(body, c.args[1]).params for c in calls_lk),
+              R + '/guards/lookup/by-id', 'T-CARRY', body.name, 'no lookup that compares the constraint id with the argument', body.site())
+    if lk:
+        lo, tbb, hit, miss = lk[0]; nextc, header, some_bb, none_bb, blocks = lo
+        ctx.counters['cfg_paths'] += 2
+        # exhausted without a hit => no Ok-exit;  a miss goes on searching (it cannot leave the loop towards an Ok-exit)
+        r_none = reach_v(body, [none_bb])
+        ctx.check(not (r_none & oks) and bool(r_none & body.err_exits()), R + '/guards/lookup/none-is-error', 'T-ERRFLOW', body.name, 'an unknown constraint id can reach an Ok-exit', body.site(nextc.bb))
+        r_miss = reach_v(body, [miss], stop={header})
+        ctx.check(not (r_miss & oks) and push.bb not in r_miss, R + '/guards/lookup/miss-continues', 'T-LOOPMUST', body.name, 'a constraint with another id is accepted', body.site(tbb))
+        ctx.check(before_push(header), R + '/guards/lookup/dominates', 'T-GUARD', body.name, 'lookup does not dominate the mutation', body.site(nextc.bb))
         feats['lookup'] = True
-    # ---- g2: must be an inequality
-    ec = enum_eq_guard(ctx, R + '/guards/is-inequality', body, r'v1::Equality$', 'LessThanOrEqualToZero', True, 'constraint.equality() == LessThanOrEqualToZero',
-                       src_need=lambda s: s.has_field(CON, 'equality'))
-    if ec is not None:
-        ctx.check(before_push(ec.bb), R + '/guards/is-inequality/dominates', 'T-GUARD', body.name, 'equality test does not dominate the mutation', body.site(ec.bb))
+    else:
+        for c in calls_lk[:1]:
+            errflow_calls(ctx, R + '/guards/lookup/none-is-error', body, [c], 'constraint lookup')
+            ctx.check(before_push(c.bb), R + '/guards/lookup/dominates', 'T-GUARD', body.name, 'lookup does not dominate the mutation', body.site(c.bb))
+            feats['lookup'] = True
+    # ---- g2: must be an inequality  (ENUM-TEST idioms of C11.enum_tests: == / != / matches! / match / raw i32 compare)
+    eqt = enum_tests(ctx, body, 'v1::Equality', src_need=lambda s: s.has_field(CON, 'equality')) or []
+    okg = None
+    for sb, tab in eqt:
+        good = sorted({tg for n, tg in tab.items() if n == 'LessThanOrEqualToZero'}); bad = sorted({tg for n, tg in tab.items() if n != 'LessThanOrEqualToZero'})
+        g = Guard2(body, sb, good, bad); ctx.counters['cfg_paths'] += 1
+        # the other kinds must not reach the mutation either (the always-satisfied exit mutates through relax_constraint)
+        if not (set(good) & set(bad)) and g.requires() and before_push(sb): okg = g; break
+    if okg is not None:
+        ctx.ok(R + '/guards/is-inequality', 'T-GUARD', body.site(okg.switch_bb), shape=okg.describe())
+        ctx.check(okg.dominates_ok_exits(), R + '/guards/is-inequality/dominates', 'T-GUARD', body.name, 'equality test does not dominate the Ok-exits', body.site(okg.switch_bb))
         feats['is-inequality'] = True
-    # ---- g3: function present
-    fopts = [c for c in body.calls if c.item == 'as_ref' and 'Option::<v1::Function>' in c.name and (CON, 'function') in [(a.split('::', 0)[-1] if False else a, f) for a, f in T.access_path(body, c.args[0])[0]]]
-    ctx.check(len(fopts) == 1, R + '/guards/function/access', 'T-ERRFLOW', body.name, 'expected one access to constraint.function, found %d' % len(fopts), body.site())
-    for c in fopts:
-        errflow_calls(ctx, R + '/guards/function/none-is-error', body, [c], 'missing function')
-        ctx.check(before_push(c.bb), R + '/guards/function/dominates', 'T-GUARD', body.name, 'function test does not dominate the mutation', body.site(c.bb))
-        feats['function'] = True
+    elif not eqt: ctx.bad(R + '/guards/is-inequality', 'T-GUARD', body.name, 'no test `constraint.equality() == LessThanOrEqualToZero` found', body.site())
+    else: ctx.bad(R + '/guards/is-inequality', 'T-GUARD', body.name, 'test `constraint.equality() == LessThanOrEqualToZero` does not guard the Ok-exits with the required polarity', body.site(eqt[0][0]))
+    # ---- g3: function present.  OPTION-TEST idioms on constraint.function:
+    #        .as_ref()/.as_mut()/.clone() + (with_context|context|ok_or..)? | let Some(f) = &c.function else { bail } | match c.function { None => return Err }
+    fcands = []        # (bb, how, None-is-error?)
+    for c in body.calls:
+        if c.item in ('as_ref', 'as_mut', 'clone', 'as_deref') and 'Option' in c.name and 'v1::Function' in c.name and (CON, 'function') in T.access_path(body, c.args[0])[0] and not c.dst['p'] and c.target >= 0:
+            ctx.counters['cfg_paths'] += 1
+            fcands.append((c.bb, c.item, none_is_error(body, c.target, c.dst['l'])))
+    for sb, some_t, none_t in option_field_tests(body, CON, 'function'):
+        ctx.counters['cfg_paths'] += 1
+        r = reach_v(body, [none_t])
+        fcands.append((sb, 'match', not (r & oks) and bool(r & body.err_exits())))
+    fc = [x for x in fcands if before_push(x[0])]
+    ctx.check(bool(fc), R + '/guards/function/access', 'T-ERRFLOW', body.name, 'no test of constraint.function before the mutation', body.site())
+    if fc:
+        good = [x for x in fc if x[2]]
+        ctx.check(bool(good), R + '/guards/function/none-is-error', 'T-ERRFLOW', body.name, 'a constraint without function can reach an Ok-exit', body.site(fc[0][0]))
+        ctx.check(bool(good) and before_push(good[0][0]), R + '/guards/function/dominates', 'T-GUARD', body.name, 'function test does not dominate the mutation', body.site(fc[0][0]))
+        if good: feats['function'] = True
     # ---- g4: every used variable is known and binary / integer
-    loops = [lo for lo in T.for_loops(body) if ctx.S.slice_operand(body, lo[0].args[0]).has_call(r'impl v1::Function>::used_decision_variable_ids')]
-    ctx.check(len(loops) == 1, R + '/guards/kinds/loop', 'T-LOOPMUST', body.name, 'expected one loop over the used variable ids, found %d' % len(loops), body.site())
+    #      (a loop over the used ids of the constraint function that dominates the mutation; the one that looks the kinds up)
+    # the kind of the item: kinds.get(&id) on the table of get_kinds(), looked up by the loop item (HashMap / BTreeMap)
+    def kind_gets(lo): return [c for c in body.calls if c.bb in lo[4] and c.item == 'get' and re.search(r'(Hash|BTree)Map', c.name) and 'Kind' in c.name and lo[0] in ctx.S.slice_operand(body, c.args[1]).call_objs]
+    loops = [lo for lo in T.for_loops(body) if ctx.S.slice_operand(body, lo[0].args[0]).has_call(r'impl v1::Function>::used_decision_variable_ids') and before_push(lo[1])]
+    ctx.check(bool(loops), R + '/guards/kinds/loop', 'T-LOOPMUST', body.name, 'no loop over the used variable ids before the mutation', body.site())
+    loops = sorted(loops, key=lambda lo: not kind_gets(lo))[:1]
     for lo in loops:
         nextc, header, some_bb, none_bb, blocks = lo
         ctx.check(before_push(header), R + '/guards/kinds/dominates', 'T-GUARD', body.name, 'kind loop does not dominate the mutation', body.site(nextc.bb))
-        gets = [c for c in body.calls if c.bb in blocks and c.item == 'get' and 'HashMap' in c.name and 'Kind' in c.name]
-        ctx.check(len(gets) == 1, R + '/guards/kinds/get', 'T-ERRFLOW', body.name, 'expected one kinds.get(id) in the loop, found %d' % len(gets), body.site(nextc.bb))
-        for c in gets:
-            k = ctx.S.slice_operand(body, c.args[1])
-            ctx.check(nextc in k.call_objs, R + '/guards/kinds/get-by-item', 'T-CARRY', body.name, 'kind is not looked up by the loop item', body.site(c.bb))
-            m = ctx.S.slice_operand(body, c.args[0])
-            ctx.check(m.has_call(r'impl v1::Instance>::get_kinds'), R + '/guards/kinds/from-get_kinds', 'T-CARRY', body.name, 'kind table does not come from get_kinds()', body.site(c.bb))
-            errflow_calls(ctx, R + '/guards/kinds/unknown-is-error', body, [c], 'unknown variable')
-        loop_must(ctx, R + '/guards/kinds/every-id', body, lo, lambda c: c in gets, 'kinds.get(id)')
-        # discriminant table
+        gets = kind_gets(lo)
+        ctx.check(len(gets) >= 1, R + '/guards/kinds/get', 'T-ERRFLOW', body.name, 'no kinds.get(id) of the loop item in the loop', body.site(nextc.bb))
+        if not gets: continue
+        c = gets[0]
+        m = ctx.S.slice_operand(body, c.args[0])
+        ctx.check(m.has_call(r'impl v1::Instance>::get_kinds'), R + '/guards/kinds/from-get_kinds', 'T-CARRY', body.name, 'kind table does not come from get_kinds()', body.site(c.bb))
+        ctx.counters['cfg_paths'] += 2
+        ctx.check(c.target >= 0 and not c.dst['p'] and none_is_error(body, c.target, c.dst['l']), R + '/guards/kinds/unknown-is-error', 'T-ERRFLOW', body.name,
+                  'a variable without kind can reach an Ok-exit', body.site(c.bb))
+        ctx.check(must_pass_v(body, some_bb, {header}, {g.bb for g in gets}), R + '/guards/kinds/every-id', 'T-LOOPMUST', body.name, 'a path through the loop body skips `kinds.get(id)`', body.site(nextc.bb))
+        si = ctx.S.slice_operand(body, nextc.args[0])
+        restr = sorted({x.item for x in si.call_objs if x.item in RESTRICTING and 'Iterator' in (x.trait or '')})
+        ctx.check(not restr, R + '/guards/kinds/every-id/all-items', 'T-LOOPMUST', body.name, 'the loop iterator is restricted by %s' % restr, body.site(nextc.bb))
+        # outcome per kind: assume the kind is V (every test on this kind — matches!, match, == chains — decided accordingly):
+        # does the item pass (back to the loop header) or end in an Err-exit?
         kadt = ctx.F.adt('v1::decision_variable::Kind')
-        sw = []
-        for bi in blocks:
-            t = body.blocks[bi]['term']
-            if t['k'] == 'switch' and t['d']['k'] != 'const':
-                for k2, b2, d in body.defs_of(t['d']['pl']['l']):
-                    if k2 == 'stmt' and d['rv']['k'] == 'discr':
-                        bl = d['rv']['pl']['l']
-                        if re.fullmatch(r"&?('\w+ )?v1::decision_variable::Kind", body.locals[bl]): sw.append((bi, t))
-        ctx.check(len(sw) == 1 and kadt is not None, R + '/guards/kinds/match', 'T-TABLE', body.name, 'expected one match on the variable kind, found %d' % len(sw), body.site(nextc.bb))
-        if len(sw) == 1 and kadt is not None:
-            bi, t = sw[0]; m = {v: tg for v, tg in t['ts']}
+        tests = [(sb, tab) for sb, tab in (enum_tests(ctx, body, 'v1::decision_variable::Kind', src_need=lambda s: c in s.call_objs) or []) if sb in blocks]
+        ctx.check(bool(tests) and kadt is not None, R + '/guards/kinds/match', 'T-TABLE', body.name, 'no test of the variable kind in the loop', body.site(nextc.bb))
+        if tests and kadt is not None:
             errs = body.err_exits(); table = {}
             for v in kadt['variants']:
-                tg = m.get(v['discr'], t['else'])
-                r = T.reach_cp(body, [tg], stop={header})
-                cont = any(header in body.succ(x) for x in r)
-                table[v['name']] = 'continue' if cont and not (r & errs) else ('error' if (r & errs) and not cont else 'mixed')
+                forced = {sb: tab[v['name']] for sb, tab in tests}
+                hits = set(); ctx.counters['cfg_paths'] += 1
+                r = reach_v(body, [c.target], {c.dst['l']: 'Option::Some'}, stop={header}, forced=forced, hits=hits)
+                cont = header in hits; err = bool(r & errs)
+                table[v['name']] = 'continue' if cont and not err and not (r & oks) else ('error' if err and not cont and not (r & oks) else 'mixed')
             want = {v['name']: ('continue' if v['name'] in ALLOWED_KINDS else 'error') for v in kadt['variants']}
-            ctx.check(table == want, R + '/guards/kinds/table', 'T-TABLE', body.name, 'kind table is %s, expected %s' % (table, want), body.site(bi))
+            ctx.check(table == want, R + '/guards/kinds/table', 'T-TABLE', body.name, 'kind table is %s, expected %s' % (table, want), body.site(tests[0][0]))
             feats['kinds'] = tuple(sorted(table.items()))
     # ---- g5 / g6: interval tests
     infeasible = None; always = None
@@ -87,15 +176,18 @@ def slack_rules(ctx, name, convert):
         if not s.has_call(r'impl v1::Function>::evaluate_bound'): continue
         op = st['rv']['op']; const_right = ops[1]['k'] == 'const'
         if not const_right: op = {'Gt': 'Lt', 'Lt': 'Gt', 'Ge': 'Le', 'Le': 'Ge'}[op]
-        direct = [c for c in body.calls if c.dst['l'] == other[0]['pl']['l']]
+        # the compared value is bound.lower() / bound.upper(), directly or through `let lo = bound.lower();`
+        srcs = plain_source(body, other[0]) or set()
+        direct = [c for c in body.calls if c.dst['l'] in srcs and not c.dst['p'] and c.path.endswith('Bound::' + c.item)]
         which = direct[0].item if direct else None
-        for g in T.guards_from_local(body, st['dst']['l'], bi):
-            if which == 'lower' and op == 'Gt': infeasible = (bi, g)
-            if which == 'upper' and op == 'Le': always = (bi, g)
+        # INTERVAL-TEST idioms:  lower > 0  ==  0 < lower  ==  !(lower <= 0);   upper <= 0  ==  0 >= upper  ==  !(upper > 0)
+        for sb, neg in T.bool_flow(body, st['dst']['l']):
+            if which == 'lower' and op in ('Gt', 'Le'): infeasible = (bi, SideGuard(body, sb, neg != (op == 'Le')))
+            if which == 'upper' and op in ('Le', 'Gt'): always = (bi, SideGuard(body, sb, neg != (op == 'Gt')))
     ctx.check(infeasible is not None, R + '/guards/infeasible/test', 'T-GUARD', body.name, 'no `bound.lower() > 0` test', body.site())
     if infeasible:
         bi, g = infeasible
-        r = T.reach_cp(body, [g.true_bb])
+        r = reach_v(body, [g.true_bb])
         ctx.check(not (r & body.strict_ok_exits()) and bool(r & body.err_exits()) and push.bb not in r, R + '/guards/infeasible/is-error', 'T-GUARD', body.name,
                   '`lower > 0` does not lead to an error before any mutation', body.site(bi))
         agg = [b2 for b2, st2 in body.stmts() if b2 in r and st2['rv']['k'] == 'agg' and 'InfeasibleDetected::InequalityConstraintBound' in st2['rv']['adt']]
@@ -105,14 +197,14 @@ def slack_rules(ctx, name, convert):
     ctx.check(always is not None, R + '/guards/always/test', 'T-GUARD', body.name, 'no `bound.upper() <= 0` test', body.site())
     if always:
         bi, g = always
-        r = T.reach_cp(body, [g.true_bb])
+        r = reach_v(body, [g.true_bb])
         relax = [c for c in body.calls if c.bb in r and c.item == 'relax_constraint' and c.path.endswith('relax_constraint')]
         ctx.check(bool(relax) and push.bb not in r and bool(r & body.strict_ok_exits()), R + '/guards/always/relax-and-return', 'T-BRANCHFX', body.name,
                   '`upper <= 0` does not relax the constraint and return without a new variable', body.site(bi))
         for c in relax:
             ctx.check(c.args[1]['k'] in ('copy', 'move') and T.access_path(body, c.args[1])[1] == 2, R + '/guards/always/relax-same-id', 'T-CARRY', body.name, 'relax_constraint is not called with the given id', body.site(c.bb))
             errflow_calls(ctx, R + '/guards/always/relax-error', body, [c], 'relax_constraint result')
-        fr = T.reach_cp(body, [g.false_bb])
+        fr = reach_v(body, [g.false_bb])
         ctx.check(push.bb in fr, R + '/guards/always/else-continues', 'T-BRANCHFX', body.name, 'the other side never reaches the slack construction', body.site(bi))
         ctx.check(before_push(bi), R + '/guards/always/dominates', 'T-GUARD', body.name, 'test does not dominate the mutation', body.site(bi))
         # no write to the constraint function on the relaxed path
@@ -134,8 +226,9 @@ def slack_rules(ctx, name, convert):
                     if op in ('Lt', 'Le') and g.requires(True) and before_push(g.switch_bb): lim = (bi, g)
         ctx.check(lim is not None, R + '/guards/range-limit', 'T-GUARD', body.name, 'no `width > max_integer_range` => error test before the mutation', body.site())
     # ---- atomic
-    for what, bi, badexits in T.check_atomic(body, ctx.S, ctx.F, atomic_callees=('relax_constraint',)):
-        ctx.check(not badexits, R + '/atomic', 'T-ATOMIC', body.name, 'an Err-exit (bb%s) is reachable after mutation `%s`' % (badexits, what), body.site(bi))
+    sites = T.check_atomic(body, ctx.S, ctx.F, atomic_callees=('relax_constraint',))
+    late = [(what, bi, badexits) for what, bi, badexits in sites if badexits]
+    ctx.check(not late, R + '/atomic', 'T-ATOMIC', body.name, 'an Err-exit (bb%s) is reachable after mutation `%s`' % (late[0][2], late[0][0]) if late else '', body.site(late[0][1]) if late else body.site(), sites=len(sites))
     # ---- the slack variable
     aggs = find_aggregates(body, DV)
     ctx.check(len(aggs) == 1, R + '/vars/one-aggregate', 'T-CARRY', body.name, 'expected one DecisionVariable aggregate, found %d' % len(aggs), body.site())
@@ -148,29 +241,25 @@ def slack_rules(ctx, name, convert):
             okb = False
             for c in bs.call_objs:
                 if c.item == 'new' and c.path.endswith('Bound::new'):
-                    a0 = c.args[0]; a1 = c.args[1]
-                    lo0 = a0['k'] == 'const' and T.f64_const(a0['v']) == 0.0
-                    s1 = ctx.S.slice_operand(body, a1)
-                    neg = False
-                    if a1['k'] in ('copy', 'move'):
-                        for k2, b2, d2 in body.defs_of(a1['pl']['l']):
-                            if k2 == 'stmt' and d2['rv']['k'] == 'un' and d2['rv']['op'] == 'Neg':
-                                src = d2['rv']['ops'][0]
-                                dc = [x for x in body.calls if src['k'] in ('copy', 'move') and x.dst['l'] == src['pl']['l']]
-                                neg = bool(dc) and dc[0].item == 'lower'
-                    okb = lo0 and neg and s1.has_call('as_integer_bound') and s1.has_call('evaluate_bound')
+                    k0 = const_operand(body, c.args[0])
+                    lo0 = k0 is not None and T.f64_const(k0['v']) == 0.0
+                    s1 = ctx.S.slice_operand(body, c.args[1])
+                    sign, nums, dens = ratio(T.expr(body, c.args[1]))
+                    neg_lower = sign == -1 and len(nums) == 1 and not dens and is_bound_call(nums[0], 'lower')
+                    okb = lo0 and neg_lower and s1.has_call('as_integer_bound') and s1.has_call('evaluate_bound')
             ctx.check(okb, R + '/vars/bound', 'T-CARRY', body.name, 'slack bound is not Bound::new(0, -lower) of the integer bound of a*f', body.site(bi))
         else:
             okb = False
             for b2, st2 in find_aggregates(body, 'v1::Bound'):
                 if st2['dst']['l'] in bs.locals:
                     d = dict(zip(st2['rv']['fields'], st2['rv']['ops']))
-                    lo0 = d['lower']['k'] == 'const' and T.f64_const(d['lower']['v']) == 0.0
+                    k0 = const_operand(body, d['lower'])
+                    lo0 = k0 is not None and T.f64_const(k0['v']) == 0.0
                     up = ctx.S.slice_operand(body, d['upper'])
                     okb = lo0 and 3 in up.params and not up.has_call('evaluate_bound')
             ctx.check(okb, R + '/vars/bound', 'T-CARRY', body.name, 'slack bound is not [0, slack_upper_bound]', body.site(bi))
     # ---- coefficient and the rewritten function
-    fw = [(bi, st) for bi, st in body.stmts() if st['dst']['p'] and fields_of_place(st['dst'])[-1:] == [(CON, 'function')] or (st['dst']['p'] and (CON, 'function') in fields_of_place(st['dst']))]
+    fw = [(bi, st) for bi, st in body.stmts() if st['dst']['p'] and (CON, 'function') in fields_of_place(st['dst'])]
     ctx.check(len(fw) == 1, R + '/coef/one-write', 'T-CARRY', body.name, 'expected one write to constraint.function, found %d' % len(fw), body.site())
     for bi, st in fw:
         s = ctx.S.slice_operand(body, st['rv']['ops'][0])
@@ -180,74 +269,76 @@ def slack_rules(ctx, name, convert):
         ctx.check(s.has_field(CON, 'function'), R + '/coef/keeps-f', 'T-CARRY', body.name, 'new function does not contain the old one', body.site(bi))
         for c in st_calls:
             idop = agg_field_operand(aggs[0][1], 'id') if aggs else None
-            same_id = False
-            if idop and idop['k'] in ('copy', 'move') and c.args[0]['k'] in ('copy', 'move'):
-                a = T.copies_of(body, idop['pl']['l']); 
-                def src_of(l):
-                    for k2, b2, d2 in body.defs_of(l):
-                        if k2 == 'stmt' and d2['rv']['k'] == 'use' and d2['rv']['ops'][0]['k'] in ('copy', 'move'): return d2['rv']['ops'][0]['pl']['l']
-                    return l
-                same_id = src_of(idop['pl']['l']) == src_of(c.args[0]['pl']['l'])
+            same_id = bool(idop) and bool((plain_source(body, idop) or set()) & (plain_source(body, c.args[0]) or set()))
             ctx.check(same_id, R + '/coef/slack-id', 'T-CARRY', body.name, 'the slack term does not use the new variable id', body.site(c.bb))
             co = c.args[1]
-            cdef = None
-            if co['k'] in ('copy', 'move'):
-                l = co['pl']['l']
-                for _ in range(3):
-                    ds = [d for d in body.defs_of(l) if d[0] == 'stmt']
-                    if len(ds) == 1 and ds[0][2]['rv']['k'] == 'use' and ds[0][2]['rv']['ops'][0]['k'] in ('copy', 'move'): l = ds[0][2]['rv']['ops'][0]['pl']['l']
-                    else: break
-                ds = [d for d in body.defs_of(l) if d[0] == 'stmt']
-                if len(ds) == 1: cdef = ds[0][2]; coef_local = l
+            # COEFFICIENT as a signed ratio of atoms: -x, a*b, a/b, 0.0 - x, x.recip(), factors +-1.0 — in any grouping / hoisted into lets
+            sign, nums, dens = ratio(T.expr(body, co))
             if convert:
-                ok = False
-                if cdef and cdef['rv']['k'] == 'bin' and cdef['rv']['op'] == 'Div':
-                    n, dn = cdef['rv']['ops']
-                    ok = n['k'] == 'const' and T.f64_const(n['v']) == 1.0 and ctx.S.slice_operand(body, dn).has_call(r'impl v1::Function>::content_factor')
+                ok = sign == 1 and not nums and len(dens) == 1 and T.expr_has_call(dens[0], name_re=r'impl v1::Function>::content_factor') and \
+                     T.strip_wrappers(dens[0])[0] == 'call' and T.strip_wrappers(dens[0])[1] == 'content_factor'
                 ctx.check(ok, R + '/coef/one-over-a', 'T-CARRY', body.name, 'slack coefficient is not 1/a with a = content_factor()', body.site(c.bb))
             else:
-                ok = False
-                if cdef and cdef['rv']['k'] == 'bin' and cdef['rv']['op'] == 'Div':
-                    n, dn = cdef['rv']['ops']
-                    nn = False
-                    if n['k'] in ('copy', 'move'):
-                        for k2, b2, d2 in body.defs_of(n['pl']['l']):
-                            if k2 == 'stmt' and d2['rv']['k'] == 'un' and d2['rv']['op'] == 'Neg':
-                                src = d2['rv']['ops'][0]
-                                dc = [x for x in body.calls if src['k'] in ('copy', 'move') and x.dst['l'] == src['pl']['l']]
-                                nn = bool(dc) and dc[0].item == 'lower'
-                    ok = nn and 3 in ctx.S.slice_operand(body, dn).params
+                ok = sign == -1 and len(nums) == 1 and is_bound_call(nums[0], 'lower') and len(dens) == 1 and only_param(dens[0], 3)
                 ctx.check(ok, R + '/coef/minus-lower-over-upper', 'T-CARRY', body.name, 'slack coefficient is not -lower / slack_upper_bound', body.site(c.bb))
                 # the same value is returned
                 rets = [(e, rst) for e, k, rst in body.ret_assignments() if k == 'ok' and e in body.reach([bi])]
-                okr = False
+                okr = bool(rets)
+                cchain = plain_source(body, co) or set()
                 for e, rst in rets:
+                    same = False
                     op0 = rst['rv']['ops'][0]
-                    if op0['k'] in ('copy', 'move'):
-                        for k2, b2, d2 in body.defs_of(op0['pl']['l']):
-                            if k2 == 'stmt' and d2['rv']['k'] == 'agg' and d2['rv']['adt'].endswith('Option::Some'):
-                                o = d2['rv']['ops'][0]
-                                if o['k'] in ('copy', 'move'):
-                                    l = o['pl']['l']
-                                    for _ in range(3):
-                                        ds = [d for d in body.defs_of(l) if d[0] == 'stmt']
-                                        if len(ds) == 1 and ds[0][2]['rv']['k'] == 'use' and ds[0][2]['rv']['ops'][0]['k'] in ('copy', 'move'): l = ds[0][2]['rv']['ops'][0]['pl']['l']
-                                        else: break
-                                    okr = cdef is not None and l == coef_local
+                    for l in (plain_source(body, op0) or ()):
+                        d2 = single_def(body, l)
+                        if d2 and d2[0] == 'stmt' and d2[2]['rv']['k'] == 'agg' and d2[2]['rv']['adt'].endswith('Option::Some'):
+                            same = bool((plain_source(body, d2[2]['rv']['ops'][0]) or set()) & cchain)
+                    okr = okr and same
                 ctx.check(okr, R + '/coef/returned', 'T-CARRY', body.name, 'the returned coefficient is not the one used in the slack term', body.site(bi))
     if convert:
-        se = [c for c in body.calls if c.item == 'set_equality']
+        # SET-EQUALITY idioms: constraint.set_equality(Equality::EqualToZero) | constraint.equality = Equality::EqualToZero as i32
+        def covers_ok_exits(bb): return all(body.dominates(bb, e) or e not in body.reach([push.bb]) for e in body.strict_ok_exits())
         okk = False
-        for c in se:
-            v = enum_variant_of_operand(ctx, body, c.args[1])
-            okk = bool(v) and v.endswith('Equality::EqualToZero') and all(body.dominates(c.bb, e) or e not in body.reach([push.bb]) for e in body.strict_ok_exits())
+        for c in body.calls:
+            if c.item == 'set_equality' and len(c.args) == 2:
+                v = enum_variant_of_operand(ctx, body, c.args[1])
+                if bool(v) and v.endswith('Equality::EqualToZero') and covers_ok_exits(c.bb): okk = True
+        for bi, st in body.stmts():
+            if st['dst']['p'] and (CON, 'equality') in fields_of_place(st['dst']) and st['rv'].get('ops'):
+                if ctx.S.slice_operand(body, st['rv']['ops'][0]).has_const(r'Equality::EqualToZero') and covers_ok_exits(bi): okk = True
         ctx.check(okk, R + '/coef/set-equality', 'T-BRANCHFX', body.name, 'constraint is not turned into an equality', body.site())
     else:
-        wr = self_writes(ctx, body)
         eqw = [bi for bi, st in body.stmts() if st['dst']['p'] and (CON, 'equality') in fields_of_place(st['dst'])]
         ctx.check(not eqw and not [c for c in body.calls if c.item == 'set_equality'], R + '/coef/equality-untouched', 'T-BRANCHFX', body.name, 'equality kind is modified', body.site())
     writes_only(ctx, R + '/only', body, {'decision_variables', 'constraints', 'removed_constraints'})
     return feats
+
+
+def ratio(e):
+    """(sign, numerator atoms, denominator atoms) of an f64 product / quotient expression tree"""
+    e = T.arith(e); k = e[0]
+    if k == 'un' and e[1] == 'Neg':
+        s, n, d = ratio(e[2]); return -s, n, d
+    if k == 'bin' and e[1] == 'Mul':
+        s1, n1, d1 = ratio(e[2]); s2, n2, d2 = ratio(e[3]); return s1 * s2, n1 + n2, d1 + d2
+    if k == 'bin' and e[1] == 'Div':
+        s1, n1, d1 = ratio(e[2]); s2, n2, d2 = ratio(e[3]); return s1 * s2, n1 + d2, d1 + n2
+    if k == 'bin' and e[1] == 'Sub' and e[2][0] == 'const' and T.f64_const(e[2][1]) == 0.0:
+        s, n, d = ratio(e[3]); return -s, n, d
+    if k == 'const' and T.f64_const(e[1]) in (1.0, -1.0): return int(T.f64_const(e[1])), [], []
+    if k == 'call' and e[1] == 'recip' and re.search(r'f64>::recip$', e[2]) and e[3]:
+        s, n, d = ratio(e[3][0]); return s, d, n
+    return 1, [e], []
+
+
+def is_bound_call(e, item):
+    e = T.strip_wrappers(e)
+    return e[0] == 'call' and e[1] == item and e[2].endswith('bound::Bound::' + item)
+
+
+def only_param(e, p):
+    """the atom is parameter p (possibly cast / copied), nothing else"""
+    leaves = [x for x in T.expr_walk(e) if x[0] in ('place', 'local', 'const', 'call')]
+    return bool(leaves) and all(x[0] == 'place' and x[1] == p and not x[2] for x in leaves)
 
 
 def check(ctx):
@@ -255,4 +346,4 @@ def check(ctx):
     b = slack_rules(ctx, 'add_integer_slack_to_inequality', False)
     # sibling agreement on the shared guard set
     ctx.check(a == b, 'C13.sibling/guard-set', 'T-SIBLING', 'convert_… vs add_…', 'guard sets differ: convert=%s add=%s' % (sorted(a.items()), sorted(b.items())))
-    ctx.floor('C13.convert', 35); ctx.floor('C13.add', 34)
+    ctx.floor('C13.convert', 44); ctx.floor('C13.add', 44)
